@@ -15,8 +15,18 @@
 package tso
 
 import (
+	"errors"
 	"sync/atomic"
 )
+
+// MaxInFlight bounds how far the dealt revision may run ahead of the committed one. The backend's sequencer keeps
+// the outcome of every dealt revision in a ring of this many slots until all earlier revisions are resolved: a
+// revision further ahead has no slot. It is refused here, BEFORE it is dealt, so that no request is ever left with
+// a revision it cannot report.
+const MaxInFlight = 100000 // = the slot ring of pkg/backend (watchersChanCapacity)
+
+// ErrTooManyInFlight is returned by Deal while MaxInFlight-1 revisions are dealt and not yet committed
+var ErrTooManyInFlight = errors.New("too many unresolved revisions in flight, try again")
 
 // TSO is the controller of continuous revision windows
 type TSO interface {
@@ -50,7 +60,17 @@ func (n *naiveTSO) GetRevision() (maxCommittedRevision uint64) {
 
 // Deal implement TSO interface
 func (n *naiveTSO) Deal() (revision uint64, err error) {
-	return atomic.AddUint64(&n.dealRevision, 1), err
+	for {
+		dealt := atomic.LoadUint64(&n.dealRevision)
+		committed := atomic.LoadUint64(&n.committedRevision)
+		// the committed revision only grows, so a revision dealt here stays within the window
+		if dealt >= committed && dealt+1-committed >= MaxInFlight {
+			return 0, ErrTooManyInFlight
+		}
+		if atomic.CompareAndSwapUint64(&n.dealRevision, dealt, dealt+1) {
+			return dealt + 1, nil
+		}
+	}
 }
 
 // Commit implement TSO interface
